@@ -65,7 +65,25 @@ fn main() {
                 scaled: !args.flag("--no-scaled"),
                 seed,
             };
-            r_generic::replay(&vs, &rep, &o, threads);
+            // forked in chunks: the raw-pointer entry points can abort the process (failed debug precondition of a
+            // pointer operation = non-unwinding panic) or fault; the crash is bisected down to one vector and reported
+            let tmp = args.val("--tmp").unwrap_or("/tmp/verif-iso-generic").to_string();
+            let crashes = run_isolated(vs.len(), 4000, threads, &tmp, &rep, &|r, rep| {
+                let mut cnt = Counts::default();
+                for i in r {
+                    r_generic::replay_one(i, &vs[i], rep, &mut cnt, &o);
+                    cnt.add("vectors", 1);
+                }
+                rep.merge_counts(&cnt.0);
+            });
+            for (i, st) in crashes {
+                let sig = st & 0x7f;
+                let class = if sig == 11 || sig == 7 { Class::Oob } else { Class::Panic };
+                rep.finding(class, &format!("byte search: the process died with {} while executing this vector (an abort is a failed debug precondition / non-unwinding panic in the code under test)", describe_status(st)), serde_json::json!({"vector": vs[i]}));
+            }
+            for v in vs.iter().take(3) {
+                rep.sample(v.clone());
+            }
         }
         "replay-iseq" => {
             let vs = read_ndjson(args.val("--in").expect("--in"));
